@@ -72,6 +72,8 @@ class Gen:
         # every variable that might hold one (results of touchy functions, parameters, results of nested DAGs) stays out of the
         # positions where plain Python itself looks at the value: activation flags, and_ / or_ / not_, operators, indexes
         self.touchy = rng.random() < feats.get("touchy", 0.15)
+        # "flat" programs: every call site takes only parameters and constants (one wide level of independent thread nodes)
+        self.flat = rng.random() < feats.get("flat", 0.0)
 
     def fresh(self, pfx):
         self.counter += 1
@@ -90,7 +92,7 @@ class Gen:
             unpack = shape[1] if shape and shape[0] in ("tuple", "list") and rng.random() < 0.6 else None
             specs[name] = dict(
                 shape=shape, unpack_to=unpack, priority=rng.choice([0, 0, 1, 5, -1, 3]),
-                is_sequential=rng.random() < self.f.get("seq", 0.15), resource=rng.choice(RES),
+                is_sequential=(not self.flat) and rng.random() < self.f.get("seq", 0.15), resource="thread" if self.flat else rng.choice(RES),
             )
         return specs
 
@@ -126,6 +128,8 @@ class Gen:
                 return repr(rng.choice(FALSY_TRUTHY))  # (workloads that stress CONSTANT flags: their helper nodes carry ids too)
             cands = []
             for v, info in vars_.items():
+                if self.flat and not info.get("param"):
+                    continue
                 if for_op and (info["maybe_none"] or not info["plain"]):
                     continue
                 if results_only and info.get("param"):
@@ -178,6 +182,8 @@ class Gen:
         whole_containers = []  # results of nested DAG calls that are python containers of results
         for _ in range(nst):
             r = rng.random()
+            if self.flat:
+                r = 0.5  # (flat programs: plain call sites only - no operators, no and_/or_/not_, no nested calls)
             opable = [v for v, i in vars_.items() if i["plain"] and not i["maybe_none"]]
             if r < f.get("ops", 0.15) and opable:
                 t = newvar()
